@@ -312,5 +312,19 @@ def main():
         return 2
 
 
+def _main_with_tmp():
+    """every temporary file of the run (all shards included) lives under one directory that is removed
+    when the run ends, whatever happens"""
+    import shutil
+    import tempfile
+    root = tempfile.mkdtemp(prefix="vf-run-")
+    tempfile.tempdir = root
+    os.environ["TMPDIR"] = root
+    try:
+        return main()
+    finally:
+        shutil.rmtree(root, ignore_errors=True)
+
+
 if __name__ == "__main__":
-    sys.exit(main())
+    sys.exit(_main_with_tmp())
